@@ -169,6 +169,7 @@ func vCheckPassthroughTLS(rec []byte, keys []Key, strict, tlsOracle bool) {
 	}
 	vReach("passed")
 	vAssert(!c.ECHAccepted(), "no seal was registered: not accepted")
+	vAssert(len(tr.out) == 0 && !tr.closed, "a passed-through hello: nothing is written to the client, the connection stays open")
 	got, _ := vReadAll(c, 400, len(rec))
 	vAssert(len(got) == len(rec), "forwarded record has the client's length")
 	vAssert(got[0] == rec[0] && got[3] == rec[3] && got[4] == rec[4], "record type and length unchanged")
@@ -301,10 +302,18 @@ func verifC05Later() {
 		opts = append(opts, WithKeys(vC08Key()))
 	}
 	tr := newVTransport(h.record())
+	// the client may already have sent more (early data, a pipelined record) when NewConn runs
+	early := []byte{}
+	if vBool() {
+		early = vRecord(23, 0x0303, vBytes(2))
+		tr.in = vCat(tr.in, early)
+	}
 	c, err := NewConn(context.Background(), tr, opts...)
 	vAssert(err == nil && !c.ECHAccepted(), "GREASE / unknown ECH passes through")
+	vAssert(len(tr.out) == 0 && !tr.closed, "nothing is written to the client, the connection stays open")
 	first, _ := vReadAll(c, 400, len(tr.in))
-	vAssert(vBytesEq(first, h.record()), "hello forwarded unchanged")
+	vAssert(vBytesEq(first, vCat(h.record(), early)), "hello (and what the client had already sent behind it) forwarded unchanged")
+	var wantOut []byte
 	for i := 0; i < 3; i++ {
 		var rec []byte
 		toBackend := false
@@ -340,9 +349,12 @@ func verifC05Later() {
 			n, werr := c.Write(rec)
 			vAssert(werr == nil && n == len(rec), "later backend record accepted")
 			vAssert(vBytesEq(tr.out[before:], rec), "later backend record forwarded unchanged")
+			wantOut = vCat(wantOut, rec)
 		}
 	}
-	vAssert(!tr.closed && len(tr.out) >= 0, "connection left alone")
+	vAssert(!tr.closed && vBytesEq(tr.out, wantOut), "the client received exactly what the backend wrote; connection left alone")
+	cerr := c.Close()
+	vAssert(cerr == nil && tr.closeCalls == 1 && vBytesEq(tr.out, wantOut), "Close closes the connection once and writes nothing")
 	vReach("later")
 }
 
